@@ -13,6 +13,12 @@ CONSTANTS
   Ops = {"CtxDeregister", "DropRef", "Dispatch", "CtxQuit", "ModDeregister", "ModPause", "ModResume", "ModStop", "ModStart", "Subscribe"}
   CbOps = {}
   EvalVals = {TRUE}
+  Prios = {"N"}
+  BatchSizes = {}
+  UnstashNs = {}
+  HandlerIds = {}
+  Targets = {"A", "B"}
+  AutoVals = {TRUE, FALSE}
   Senders = {"A", "B"}
   QuitCodes = {1}
   Setup = "loop2"
